@@ -201,6 +201,8 @@ func newFixt(name string) *fixt {
 		if err == nil {
 			x.mint, err = opfix.New(st, opfix.Options{})
 		}
+	case "noreqobj":
+		f, err = opfix.New(st, opfix.Options{NoReqObj: true})
 	case "forwarded":
 		f, err = opfix.NewWithIssuer(st, opfix.Options{}, op.IssuerFromForwardedOrHost("", op.WithIssuerFromCustomHeaders("forwarded", "x-verif-forwarded")))
 	default:
